@@ -105,3 +105,12 @@ Definition c21_ok (cs : c21case) : bool :=
   let row k := let d := nth k (c_docs c) dflt_doc in (d_repo d, d_name d) in
   list_eqb row_eqb (map row res) observed.
 Definition c21_mismatches (cs : list c21case) : list N := bad_indexes c21_ok cs.
+
+(** total limit: (TotalMaxMatchCount, per-shard (match count, file ids) of the unlimited run in dispatch order,
+    observed arrival sequence under the limit). With one worker and a channel buffer of one, at most 2 shards are in
+    flight when stop() is called; the model must reproduce the arrival sequence for some in-flight count <= 3. *)
+Definition c21tcase := (nat * list (nat * list nat) * list (list nat))%type.
+Definition c21t_ok (cs : c21tcase) : bool :=
+  let '(limit, rs, observed) := cs in
+  existsb (fun inflight => list_eqb (list_eqb Nat.eqb) (total_stream nat limit inflight 0 None rs) observed) [0; 1; 2; 3].
+Definition c21t_mismatches (cs : list c21tcase) : list N := bad_indexes c21t_ok cs.
